@@ -21,10 +21,16 @@ type vCodec struct {
 	maxEnc  int
 	pairs   []vPair
 	unknown int // Decode calls on bytes this codec never produced
+	fixed   int // if > 0: every encoding is exactly this long
 }
 
 func (c *vCodec) Encode(src, dst []byte) ([]byte, uint32) {
-	e := verifBytes(c.maxEnc)
+	var e []byte
+	if c.fixed > 0 {
+		e = verifBytesN(c.fixed) // a chunk that expands a lot (incompressible data behind a long header)
+	} else {
+		e = verifBytes(c.maxEnc)
+	}
 	c.pairs = append(c.pairs, vPair{src: append([]byte{}, src...), enc: e})
 	return append(dst, e...), uint32(len(e))
 }
@@ -102,8 +108,17 @@ func vHadoopRead(s []byte) (blockLens []uint32, chunks [][]byte, ok bool) {
 // the chunk size, given as one or several buffers — follows the Hadoop block layout (one block,
 // declared length = payload length, chunks of exactly ChunkLen uncompressed bytes except the
 // last, in order) and decompresses to the identical bytes.
+// vExpandTo: encodings are exactly this long, far longer than their input (whatever room the
+// caller left behind the chunk-length field is not enough: the codec has to re-allocate).
+var vExpandTo int
+
+func VerifCompressExpanding() {
+	vExpandTo = 48
+	VerifCompressRoundTrip()
+}
+
 func VerifCompressRoundTrip() {
-	codec := &vCodec{chunk: uint32(verifParam("CHUNK")), maxEnc: verifParam("ENC")}
+	codec := &vCodec{chunk: uint32(verifParam("CHUNK")), maxEnc: verifParam("ENC"), fixed: vExpandTo}
 	c := &compressor{Codec: codec}
 	nb := 1 + verifChoose(verifParam("BUFS"))
 	var cbs net.Buffers
